@@ -1100,7 +1100,13 @@ func (t *tcase) grpcGet(key *pb.Digest, rq inlineReq, reqKind int) {
 		return
 	}
 	if emptyDigestAnomaly(stored) {
+		// inline bytes declared with the empty blob's digest: accepted by UpdateActionResult (disk.Put
+		// short-cuts that digest without reading the bytes) and dropped by a non-inlining read.
+		// Counted; reported as an oracle failure only when the driver is run with the extra argument strict-empty-digest.
 		t.rep.Count("get.hit.empty-digest-anomaly")
+		if strictEmptyDigest && !proto.Equal(norm(res), norm(stored)) {
+			t.fail("inline contents declared with the empty-blob digest were accepted and a later hit dropped them (bytes neither returned nor in the CAS)")
+		}
 		return
 	}
 	if !consistent(stored) {
@@ -1317,7 +1323,14 @@ func tmpBase() string {
 	return ""
 }
 
-func driver(seed uint64, n int, outV, outJSON string, _ []string) {
+var strictEmptyDigest bool
+
+func driver(seed uint64, n int, outV, outJSON string, args []string) {
+	for _, a := range args {
+		if a == "strict-empty-digest" {
+			strictEmptyDigest = true
+		}
+	}
 	r := &Rng{S: seed}
 	rep := NewReport("acresult", seed)
 	rep.Rule = "scenarios on a fresh disk cache: CAS pre-populated with a random subset of a blob pool and of generated Tree blobs; 1-3 uploads of generated ActionResults (valid; one-field-invalid mutants: nil/negative/malformed digests, empty/absolute paths, nil elements; inline contents contradicting their digest; request-level and HTTP framing faults) through gRPC (direct call with several peer shapes, bufconn) and HTTP PUT (proto/JSON x plain/zstd), then gRPC GetActionResult with inline-request combinations, HTTP GET (proto+JSON), CAS Contains probes, direct validator calls and the C06 reference walk; validation on in 85% of the cases; a case is non-trivial if an upload was rejected or a hit was transformed"
